@@ -157,9 +157,6 @@ class Model(object):
             return tuple(self.fold(mod, x, _depth) for x in n.elts)
         if isinstance(n, ast.UnaryOp) and isinstance(n.op, ast.USub):
             return -self.fold(mod, n.operand, _depth)
-        if isinstance(n, ast.Attribute) and isinstance(n.value, ast.Name) and n.value.id == 'math' and n.attr == 'pi':
-            import math
-            return math.pi
         raise KeyError(ast.dump(n)[:60])
 
     def relpath(self, path):
